@@ -41,6 +41,7 @@ fn main() {
         "check" => check(&args),
         "replay" => replay(&args),
         "digest" => digest(&args),
+        "export" => export(&args),
         "c14" => sim::bcrypt::main(&args),
         "c16" => sim::residue::main(&args),
         _ => die("unknown subcommand"),
@@ -367,5 +368,40 @@ fn digest(args: &[String]) {
             r.stats.steps,
             r.violation.as_ref().map(|v| v.signature()).unwrap_or_else(|| "-".into())
         );
+    }
+}
+
+/// Write explicit operation lists (replay-file format, no violation) for the interpreter engines.
+fn export(args: &[String]) {
+    let reg = sim::registry::build();
+    let (prop, seed) = common(args);
+    let from: u64 = arg(args, "--from").and_then(|s| s.parse().ok()).unwrap_or(0);
+    let count: u64 = arg(args, "--count").and_then(|s| s.parse().ok()).unwrap_or(4);
+    let out = arg(args, "--out").unwrap_or_else(|| die("--out <dir>"));
+    let fams: Vec<&str> = arg(args, "--families").map(|s| s.split(',').collect()).unwrap_or_default();
+    let vars: Option<Vec<String>> = arg(args, "--variants").map(|s| s.split(',').map(|x| x.to_string()).collect());
+    let lim = sim::workload::Limits {
+        families: if fams.is_empty() { None } else { Some(fams.iter().map(|f| reg.family(f).unwrap_or_else(|| die(&format!("no family {}", f)))).collect()) },
+        variants: vars,
+        max_len: arg(args, "--max-ops").and_then(|s| s.parse().ok()),
+        max_variants: arg(args, "--max-variants").and_then(|s| s.parse().ok()),
+    };
+    let anchors = Anchors::compute_for(&reg, Some(&fams));
+    install_quiet_panic_hook();
+    let known = Known::default();
+    let _ = std::fs::create_dir_all(out);
+    for i in from..from + count {
+        let rs = sim::prng::run_seed(seed, i);
+        let r = sim::engine::run_one_limited(&reg, &anchors, prop, rs, &known, &lim);
+        let j = json!({
+            "format": "block-ciphers-sim-replay/1", "property": prop.name(), "engine": "native", "seed": rs,
+            "environment": r.cfg.to_json(&reg),
+            "ops": r.ops.iter().map(|o| o.to_json(&reg)).collect::<Vec<_>>(),
+            "violation": Value::Null,
+            "meta": {"run": i, "master_seed": seed, "native_h_portable": format!("{:016x}", r.h_portable), "native_violation": r.violation.as_ref().map(|v| v.to_json())},
+        });
+        let p = format!("{}/{}-{}-{}.json", out, prop.name(), seed, i);
+        std::fs::write(&p, serde_json::to_string(&j).unwrap()).unwrap_or_else(|e| die(&format!("write {}: {}", p, e)));
+        println!("{} {:016x}", p, r.h_portable);
     }
 }
